@@ -1,6 +1,6 @@
 (* C16 -- reading a single sensor gives the same value as the bulk read. *)
 From Coq Require Import ZArith List Bool String.
-From GW Require Import Prelude PyStr PyFloat Sensors TableChecks TablesGen SensorProofs TableProofs.
+From GW Require Import Prelude PyStr PyFloat Sensors TableChecks TablesGen SensorProofs TableProofs Settings SingleBulk.
 Import ListNotations.
 Open Scope Z_scope.
 
@@ -24,5 +24,19 @@ Proof.
                     (eq_trans (f_equal (fun w => sensor_read w (fun _ => 0) s) H) (eq_sym (sensor_reads_own_bytes single ps s Hr H2)))).
 Qed.
 
+(* end to end on the register-file model: for EVERY register content, every block of ET / DT.read_runtime_data (read command and sensor list
+   GENERATED from the source, all meter levels) and every sensor of the block whose read_value is implemented, the single read of the sensor
+   -- (size + size % 2) / 2 registers from its own offset, decoded from position 0 -- gives the value the bulk read decodes for it from the
+   block at position (offset - first) * 2 *)
+Theorem C16_generated_single_equals_bulk : forall r w t s, In (w, t) bulk_tables -> In s t -> readable_kind (s_kind s) = true ->
+  sensor_read (rf_bytes r (fst w) (Z.to_nat (snd w))) (fun off => (off - fst w) * 2) s = read_setting r s.
+Proof. exact generated_single_equals_bulk. Qed.
+
+(* non-vacuity: at least 300 (block, sensor) pairs are covered *)
+Theorem C16_coverage : Nat.leb 300 (List.length (filter (fun s => readable_kind (s_kind s)) (flat_map snd bulk_tables))) = true.
+Proof. exact bulk_coverage. Qed.
+
 Print Assumptions C16_single_read_fetches_enough.
 Print Assumptions C16_single_equals_bulk.
+Print Assumptions C16_generated_single_equals_bulk.
+Print Assumptions C16_coverage.
